@@ -13,7 +13,9 @@ RULE = (
     "{in,out,absent}^2 \\ {(absent,absent)} to n variables, n<=5 in quick (37448 topologies), n<=6 in thorough (299592); "
     "x 5 mention patterns (empty; maximal; assumptions avoiding the other side's outputs; one-sided) x every "
     "vars_to_keep / additional_inputs from {none, each single variable, all legal} for compose and quotient, plus merge, plus refines / <= (rejected iff the interfaces differ as sets); "
-    "symbolic contents under the always-succeed environment, so that every meaningful request must be accepted. "
+    "symbolic contents under the always-succeed environment (a rejected meaningful request is counted as "
+    "'meaningful-request-rejected', not reported: the property prescribes the interface of returned contracts and the rejection of "
+    "meaningless requests). "
     "One-contract family: every role assignment of <=4 variables x every (source,target) over names+fresh+absent for "
     "rename, copy, and every ill-formed constructor argument class. Oracle: an independent set-algebra reference of the "
     "prescribed interface written from the property text; returned contracts must be duplicate-free, disjoint, "
